@@ -42,7 +42,9 @@ pub fn sym_rules_n<N: Analysis<LSym> + 'static>(r: &mut Rng) -> Vec<(String, Rew
     let mut out = vec![];
     for (n, l, rr) in all {
         if r.chance(1, 3) {
-            out.push((format!("{n}: {l} => {rr}"), Rewrite::new(n, l, rr)));
+            // pattern variable names vary with the case (substitutions are hash maps keyed by the name)
+            let (l2, r2) = (crate::props::model::ren_vars(l), crate::props::model::ren_vars(rr));
+            out.push((format!("{n}: {l2} => {r2}"), Rewrite::new(n, &l2, &r2)));
         }
     }
     out
